@@ -319,6 +319,17 @@ class World:
         return out
 
     def dump(self):
+        """canonical dump; a world that cannot be dumped (e.g. a non-droplet stored in a collection, non-finite
+        data) yields a marker dump that equals nothing the model or the list model can produce"""
+        try:
+            return self._dump()
+        except Exception as ex:  # noqa
+            d = {k: list(v) for k, v in EMPTY_DUMP.items()}
+            d["objsig"] = [777]
+            d["undumpable"] = f"{type(ex).__name__}: {ex}"
+            return d
+
+    def _dump(self):
         H, E, T, K, A, L = self.H, self.E, self.T, self.K, self.A, self.L
         d = {}
         d["hnd"] = [value_of(x) for x in H]
